@@ -27,9 +27,8 @@ fn spec(cfg: Config, depth: usize, devs: usize) -> SeqSpec {
                     let my_turn = (ab.pos % 2 == 0) == s.is_init();
                     let fin = ab.pos >= n_msgs;
                     a.push((Op::HsWrite { side: s, plen: 1, cap: Cap::Roomy }, !(my_turn && !fin)));
-                    if my_turn && !fin {
-                        a.push((Op::HsWrite { side: s, plen: 1, cap: Cap::Exact(0) }, true));
-                    }
+                    // in phase: fails for its size only; out of phase: still the state error (see `judge`)
+                    a.push((Op::HsWrite { side: s, plen: 1, cap: Cap::Exact(0) }, true));
                     // the peer's handshake messages: the latest one (genuine when in sequence) and a stale one
                     let hs: Vec<(usize, usize)> = e.wires[peer.idx()].iter().enumerate().filter_map(|(k, w)| if let WireMeta::Hs { pos, .. } = w.meta { Some((k, pos)) } else { None }).collect();
                     if let Some((k, pos)) = hs.last() {
@@ -53,6 +52,9 @@ fn spec(cfg: Config, depth: usize, devs: usize) -> SeqSpec {
                     if written < 2 {
                         let d = usize::from(!s.is_init());
                         a.push((if stateless { Op::SWrite { side: s, nonce: written as u64, plen: 1, cap: Cap::Roomy } } else { Op::TWrite { side: s, plen: 1, cap: Cap::Roomy } }, !can_write));
+                        if !can_write {
+                            a.push((if stateless { Op::SWrite { side: s, nonce: written as u64, plen: 1, cap: Cap::Exact(0) } } else { Op::TWrite { side: s, plen: 1, cap: Cap::Exact(0) } }, true));
+                        }
                         let _ = d;
                     }
                     let can_read = !(oneway && s.is_init());
@@ -79,7 +81,18 @@ fn spec(cfg: Config, depth: usize, devs: usize) -> SeqSpec {
 fn judge(e: &Exec) -> Vec<(String, String)> {
     use crate::exec::{EClass, Expect};
     let state_err = |c: &EClass| matches!(c, EClass::NotTurnToWrite | EClass::NotTurnToRead | EClass::AlreadyFinished | EClass::NotFinished | EClass::OneWay);
-    crate::sess::filter(e, &CATS)
+    // An out-of-phase WRITE gets the documented state error whatever its buffers look like ("every out-of-phase
+    // call returns the documented state error"). Reads are not judged this way: snow documents that a message
+    // longer than 65535 bytes is refused as an input error before anything else is looked at.
+    let mut own: Vec<(String, String)> = vec![];
+    for (k, st) in e.steps.iter().enumerate() {
+        if let (Op::HsWrite { .. } | Op::TWrite { .. } | Op::SWrite { .. }, Expect::Err(c), crate::exec::Real::Err(got)) = (&st.op, &st.expect, &st.real) {
+            if c.iter().any(state_err) && !state_err(got) {
+                own.push((format!("an out-of-phase write is refused with an error other than the documented state error ({})", crate::sess::op_kind(&st.op)), format!("{}: step {k} {:?} -> {}", e.cfg.name, st.op, st.real.short())));
+            }
+        }
+    }
+    let mut rest: Vec<(String, String)> = crate::sess::filter(e, &CATS)
         .into_iter()
         .filter(|m| {
             let st = e.steps.get(m.step);
@@ -101,7 +114,9 @@ fn judge(e: &Exec) -> Vec<(String, String)> {
             }
         })
         .map(|m| (crate::sess::signature(e, m), format!("{}: {}", e.cfg.name, m.detail)))
-        .collect()
+        .collect();
+    own.append(&mut rest);
+    own
 }
 
 pub fn protos() -> Vec<Proto> {
@@ -131,6 +146,9 @@ pub fn run(tier: Tier) -> i32 {
         let r = seqmc::explore(s.clone());
         absorb(&ctx, &s, &r, &p.name);
     });
+    // second, independent engine: the TLA+ model checked by TLC, every edge of its state graph replayed
+    // against the implementation (quick: the 38 base patterns and one psk variant each; thorough: all names)
+    super::c11_tla::run(&ctx, &ps);
     let p0 = &ps[8];
     let mut cfg = Config::honest(p0, 0);
     cfg.crypto_oracle = false;
@@ -148,6 +166,9 @@ pub fn run(tier: Tier) -> i32 {
 }
 
 pub fn replay(case: &serde_json::Value) -> Result<(), String> {
+    if case["kind"] == "tla" {
+        return super::c11_tla::replay(case);
+    }
     let (cfg, ops) = crate::sess::case_from_json(case).ok_or("bad case")?;
     let e = crate::sess::run(&cfg, &ops);
     match judge(&e).first() {
